@@ -240,7 +240,7 @@ func returnsGlobalErr(in ssa.Instruction, pkgPath, name string) bool {
 		return false
 	}
 	g, ok := u.X.(*ssa.Global)
-	return ok && g.Name() == name && g.Pkg.Pkg.Path() == pkgPath
+	return ok && g.Name() == name && (g.Pkg.Pkg.Path() == pkgPath || shortPkg(g.Pkg.Pkg.Path()) == pkgPath)
 }
 
 func (r *bufRoles) isLockCall(in ssa.Instruction, op string) bool {
